@@ -17,15 +17,6 @@ namespace VaxisModel.Model.TermChild
 open VaxisModel.Model.Key VaxisModel.Model.TermMouse VaxisModel.Model.TermInputModes
 open VaxisModel.Gen.TermModes
 
-/-- One parsed sequence of the child's output, as far as mode selection can depend on it: the label
-    (intermediates ++ final) and first sub-parameters of a CSI, the label of an ESC, or anything else
-    (print, C0, OSC, DCS, APC, a resize of the widget). -/
-inductive ChildSeq where
-  | csi (label : List Nat) (params : List Int)
-  | esc (label : List Nat)
-  | other
-deriving DecidableEq, Repr
-
 /-- The emulator's operation seen as a `ChildSeq` (`param[0]` of every parameter, as `decset` reads it). -/
 def seqOf : Emu.EOp → ChildSeq
   | .csi l pm => .csi l (pm.map (·.1))
